@@ -571,7 +571,27 @@ func ruleMapRange(c *Ctx) {
 					if r := m.stmt(lit.Body, declared); r != "" {
 						c.bad(key, lit.Pos(), "callback invoked in map order has an order-sensitive body: %s", r)
 					} else if len(m.collects) > 0 {
-						c.bad(key, lit.Pos(), "callback invoked in map order appends to a slice")
+						// collect-then-sort: the statement holding the call is followed by sort.X(slice) before any other use
+						var holder ast.Stmt
+						if cur != nil && cur.Body != nil {
+							ast.Inspect(cur.Body, func(x ast.Node) bool {
+								if es, ok := x.(*ast.ExprStmt); ok && es.X == ast.Expr(call) {
+									holder = es
+								}
+								return true
+							})
+						}
+						sorted := holder != nil
+						for _, o := range m.collects {
+							if o == nil || holder == nil || !sortedBeforeUse(p.TypesInfo, cur.Body, holder, o) {
+								sorted = false
+							}
+						}
+						if sorted {
+							c.ok(key, lit.Pos(), "callback collects into a slice that is sorted before any other use")
+						} else {
+							c.bad(key, lit.Pos(), "callback invoked in map order appends to a slice that is not sorted before use: element order follows map order")
+						}
 					} else {
 						c.ok(key, lit.Pos(), "callback body is order-insensitive (keyed writes only)")
 					}
